@@ -105,6 +105,27 @@ def check_text(text, full):
         try:
             if as_plain:
                 got = yaml.load("- " + text + "\n", Loader=L)[0] if text != "" else yaml.load("-\n", Loader=L)[0]
+                if full and exp is not rs.INVALID and exp is not rs.UNDEFINED:
+                    # the same plain scalar in other positions - mapping value, anchored (and reached through its alias), flow
+                    # item: its type does not depend on where it stands or on node properties in front of it
+                    sp = " " if text else ""
+                    ctxs = [("value", "k: %s\n" % text, lambda r: [r["k"]]),
+                            ("anchored", "- &a%s%s\n- *a\n" % (sp, text), lambda r: [r[0], r[1]]),
+                            ("anchored-value", "k: &a%s%s\nj: *a\n" % (sp, text), lambda r: [r["k"], r["j"]])]
+                    if plain_ok(text, True) or text == "":
+                        ctxs.append(("flow", "[x, &a%s%s , *a]\n" % (sp, text), lambda r: [r[1], r[2]]))
+                    for cname, doc, pick in ctxs:
+                        evals += 1
+                        try:
+                            vals = pick(yaml.load(doc, Loader=L))
+                        except yaml.YAMLError as e:
+                            failures.append(Failure("load:%s:%s:rejected-in-context:%s" % (lname, kind, cname), "doc=%r %s" % (doc, exc_msg(e))))
+                            continue
+                        for v in vals:
+                            if not value_equal(v, exp, sexa):
+                                failures.append(Failure("load:%s:%s:wrong-value-in-context:%s" % (lname, kind, cname),
+                                                        "doc=%r gave %r expected %r" % (doc, v, exp)))
+                                break
             else:
                 # not writable as a plain scalar on its own: drive the constructor with the resolved node
                 ld = L("")
